@@ -9,7 +9,7 @@ CHECKS = {
  "C04": ("scalar text / numeric wire forms: Python's own printers as oracle over boundary alphabets and complete sweeps of single dimensions (all dates, all minute offsets, all seconds of day), independent ISO-8601 duration reader, epoch readings under four time zones, cache-warming twins", "§6 C04"),
  "C05": ("compositional oracle: every composite is rebuilt from member values converted by independently obtained member routines; adversarial naming programs (shared field names, same-named classes in two modules, diamonds, chains), all documented source shapes (mapping, pairs, iterator, set of pairs, foreign object, same-class instance with raw members, literal text), exception parity", "§6 C05"),
  "C06": ("closure of marshal output over exact builtin classes, json.dumps acceptance, determinism, freshness (identity-disjoint containers), input unchanged, Literal non-members rejected; every term x every value plus subclass-instance variants", "§6 C06"),
- "C07": ("every cyclic class topology over <=2 (thorough 3) classes x edge kinds x module styles x root forms x depths 0..12 (thorough ..150): plus links through NewType / value alias / PEP 604 mixed unions, classes hinted only by __init__, 23 recursive-alias programs (alias as root, below the root, as class field): build terminates, every level converted (level-dependent payloads compared with the value built directly), root instances with raw members, round trip, codec, both build orders", "§6 C07"),
+ "C07": ("every cyclic class topology over <=2 (thorough 3) classes x edge kinds x module styles x root forms x depths 0..12 (thorough ..50): plus links through NewType / value alias / PEP 604 mixed unions, classes hinted only by __init__, 23 recursive-alias programs (alias as root, below the root, as class field): build terminates, every level converted (level-dependent payloads compared with the value built directly), root instances with raw members, round trip, codec, both build orders", "§6 C07"),
  "C08": ("reference union computed from independently built member routines in declared order (None first wherever declared; members that themselves admit None) for every ordered member tuple of length 2-3 (thorough 4) over a 12-type pool, all None positions and spellings x the whole input pool, both directions", "§6 C08"),
  "C09": ("invariants I1-I11 of graph.static_order (termination, no duplicates, root last, members first against an independent member function, deferred nodes flagged/revisits/denote exactly, input forms agree, memo not corruptible) on every term, every cyclic and sharing topology, nested and same-named classes", "§6 C09"),
  "C10": ("every signature shape of <=5 (thorough 6) parameters over the 5 kinds x annotation masks x default patterns x every call shape accepted by Python plus single-mistake rejected calls, distinguishable per-parameter annotations; oracle inspect.Signature.bind + public unmarshal; function/method/callable-instance/class flavours, bind and wrap, warm second call; special programs: textually identical string-annotated signatures in two modules (both load orders), callables whose first parameter is an annotated *args", "§6 C10"),
